@@ -665,7 +665,7 @@ struct Holder {  // owns one emitted object
 };
 }  // namespace
 
-static void run_enc(const Ops& ops, const J& op, J& ev) {
+static void run_enc(const Ops& ops, const J& op, J& ev, bool into) {
     Holder h(ops);
     try {
         ops.build(h.p, op["val"]["fs"]);
@@ -677,13 +677,18 @@ static void run_enc(const Ops& ops, const J& op, J& ev) {
         return fail(ev, "build-raises", errinfo_unknown());
     }
     try {
+        ByteBuf buf;
+        if (into) {  // encinto: the output buffer is USED: it already holds the bytes `pre`, the first `rd` of them consumed
+            Bytes pre = bytes_of_array(op["pre"]);
+            buf.write_bytes(pre);
+            buf.skip_bytes(static_cast<std::size_t>(op["rd"].num()));
+        }
         verif::trace().clear();
         verif::tracing() = true;
-        ByteBuf buf;
         static_cast<const codec::BinaryCodec&>(h.codec()).encode(buf);
         verif::tracing() = false;
         ev.set("ok", true);
-        ev.set("bytes", jbytes(buf.data(), buf.writer_index()));
+        ev.set("bytes", jbytes(buf.data() + buf.reader_index(), buf.readable_bytes()));  // the READABLE content: [reader index, writer index)
         ev.set("prims", prims_of_trace());
         ev.set("calcs", calcs_of_trace());
     } catch (const std::exception& e) {
@@ -778,9 +783,13 @@ int run(int argc, char** argv, const std::vector<Ops>& table) {
         ev.set("id", op["id"]);
         const Ops* po = nullptr;
         for (const Ops& cand : table) if (cand.pkt == op["pkt"].str()) po = &cand;
-        if (kind == "enc") {
+        if (kind == "enc" || kind == "encinto") {
+            if (kind == "encinto") {
+                ev.set("pre", static_cast<unsigned long long>(op["pre"].size()));
+                ev.set("rd", op["rd"].num());
+            }
             if (!po) fail(ev, "member-missing", "no emitted type for packet " + op["pkt"].str());
-            else run_enc(*po, op, ev);
+            else run_enc(*po, op, ev, kind == "encinto");
         } else if (kind == "dec" || kind == "deckey") {
             ev.set("tail", static_cast<unsigned long long>(op["tail"].size()));
             if (!po) fail(ev, "member-missing", "no emitted type for packet " + op["pkt"].str());
